@@ -10,7 +10,7 @@ configuration and must end CONNECTED with a facade whose block equals the simula
 the pump task alive; a blackout in steady state must take the manager out of CONNECTED within
 its bound.  Logs are validated by TLC against Lifecycle_Trace (same runs as C08's machinery),
 measured outcomes judged by TLC (C09_Judge)."""
-from .. import env, tlc
+from .. import env, tlc, kf
 from .c08 import run_scenarios, validate_runs, report, design_cfg
 
 
@@ -73,11 +73,17 @@ def run(ctx):
     rng = env.rng("c09")
     r = tlc.model_check("Lifecycle", design_cfg("Lifecycle_q.cfg"), timeout=900, tag="LC-q9")
     ctx.tlc_design("Lifecycle safety incl. PumpAlive (2 connections, reset, network changes, runtime error)", r)
-    if not ctx.quick:
-        rl = tlc.model_check("Lifecycle", design_cfg("Lifecycle_live.cfg"), workers=8, timeout=3000, tag="LC-live", coverage=False)
-        ev.add_tlc("Lifecycle liveness: Quiet ~> CONNECTED (or known-finding escape), strong fairness per task, under an outer timeout", rl)
-        if rl.violated:
-            raise env.MachineryError(f"liveness model violates {rl.violated}")
+    # liveness under a round-robin scheduler (LifecycleLive.tla): asyncio's FIFO fairness as an explicit
+    # scheduler, so that one weak-fairness condition suffices and TLC's liveness check finishes in seconds
+    rl = tlc.model_check("LifecycleLive", design_cfg("LifecycleLive_q.cfg" if ctx.quick else "LifecycleLive_t.cfg"),
+                         workers=12, timeout=3000, tag="LC-live", coverage=False, heap="16g")
+    ctx.tlc_design("LifecycleLive: Quiet ~> CONNECTED (or a listed known-finding escape) under round-robin scheduling", rl)
+    if "KF_NotFound" in kf.flags():
+        rc = tlc.model_check("LifecycleLive", design_cfg("LifecycleLive_q.cfg", KF_NotFound="FALSE"), workers=8, timeout=900,
+                             tag="LC-live-ctl", coverage=False)
+        ev.add_tlc("the same without the ERROR_SPA_NOT_FOUND excuse: the stated property is refuted at design level (known finding D9)", rc)
+        if "LHeals" not in rc.violated:
+            raise env.MachineryError("liveness control (NOT_FOUND terminal) was not refuted")
     runs = run_scenarios(rng, ctx.quick, which=lambda n: not n.startswith(("susp", "sockfail", "noid:idle")))
     pairs = validate_runs(ctx, runs, "c09")
     report(ctx, pairs)
